@@ -6,6 +6,7 @@
    reduces canonical trees to canonical token streams; that both tokenizers only emit canonical
    streams is validated by the oracle on both the streams and the trees. *)
 From MW Require Import PyBase Nodes Builder Flatten BuilderProofs Canon.
+From MW Require Import HeadingFrag HeadingFragProofs.
 
 Theorem C14_canonical_tokens_give_canonical_tree_partial :
   forall c, canon_toks (fl_code c) = true -> canon_code c = true.
@@ -26,3 +27,10 @@ Example C14_example :
   canon_code [NText [97%N]; NText [98%N]] = false /\
   canon_code [NTemplate [NText []] []] = false.
 Proof. vm_compute. repeat split; reflexivity. Qed.
+
+(* the heading fragment of the tokenizer (coq/HeadingFrag.v, tied to both tokenizers by tools/headfrag.py):
+   the text-buffer discipline gives canonical trees for EVERY string over the fragment and every depth limit *)
+Theorem C14_fragment_canonical : forall md s, canon_code (frag_nodes md s) = true.
+Proof. exact frag_canonical. Qed.
+
+Print Assumptions C14_fragment_canonical.
